@@ -1,10 +1,13 @@
 #!/bin/bash
-# Evaluates every seeded change against the CURRENT checks (quick tier): writes seeded/<id>/result.txt.  Needs exclusive use of /repo.
+# Evaluates seeded changes against the CURRENT checks (quick tier) in isolated scratch copies (tools/trymutant2.sh):
+# writes seeded/<id>/result.txt.  usage: tools/eval_all_seeded.sh [id ...]   (default: all)   PAR=<n> parallel runs (default 3)
 cd /verif
-for d in seeded/*/; do
-  id=$(basename $d); prop=${id%%-*}
+ids=("$@"); [ ${#ids[@]} -eq 0 ] && ids=($(ls seeded))
+one() {
+  id=$1; prop=${id%%-*}; d=/verif/seeded/$id
   patch=$d/patch.diff; [ -f $d/patch.rebased.diff ] && patch=$d/patch.rebased.diff
-  echo "== $id"
-  tools/trymutant.sh /verif/$patch $prop > $d/result.txt 2>&1
-  grep -E "^rc=|^VIOLATION|PATCH" $d/result.txt | cut -c1-200 | head -3
-done
+  /verif/tools/trymutant2.sh $patch $prop > $d/result.txt 2>&1
+  echo "== $id $(grep -E '^rc=|PATCH' $d/result.txt | head -1) $(grep -m1 -E '^VIOLATION' $d/result.txt | sed 's/.*replays.//' | cut -c1-80)"
+}
+export -f one
+printf '%s\n' "${ids[@]}" | xargs -P ${PAR:-3} -I{} bash -c 'one {}'
